@@ -242,6 +242,42 @@ def run(F, rep, tier, allfacts):
                 rep.check(want + "(" in d, "TAB-accessor", "handler-arg:" + op, "%s:%s" % (f["file"], f["line"]),
                           "the charged amount must derive from gas_costs().%s(); found %s" % (want, d))
 
+    # ---------------- storage charge formulas
+    rep.rule("TAB-storage-charge", "storage_write_slot charges storage_write on len(value) and new_storage_per_byte * saturating_sub(len(value), old_len); storage_clear on range; reads on the length read")
+    wn, wf = F.find(r"^fuel_vm::interpreter::storage::.*::storage_write_slot$", ["fuel_vm"], one=True)
+    rep.saw(wn)
+    ch = [(callee_name(c).rsplit("::", 1)[-1], [describe(wf, a, depth=16) for a in args]) for i, c, args, *_ in calls(wf)
+          if callee_matches(c, r"::gas::.*::(gas_charge|dependent_gas_charge)$")]
+    dep = [a for n_, a in ch if n_ == "dependent_gas_charge"]
+    flat = [a for n_, a in ch if n_ == "gas_charge"]
+    rep.check(len(dep) == 1 and "storage_write(" in dep[0][1] and dep[0][2] == "call:len(arg:value)", "TAB-storage-charge", "write:storage_write(len(value))",
+              "%s:%s" % (wf["file"], wf["line"]), "storage_write_slot must charge storage_write() on the written length; found %s" % dep)
+    okf = len(flat) == 1 and bool(re.match(
+        r"^call:saturating_mul\(call:new_storage_per_byte\(.*\),call:saturating_sub\(call:len\(arg:value\),call:branch\(call:storage_slot_len_no_gas\(arg:self,arg:contract_id,arg:key\)\)\)\)$", flat[0][1]))
+    rep.check(okf, "TAB-storage-charge", "write:new_storage_per_byte*(new_len-old_len)+", "%s:%s" % (wf["file"], wf["line"]),
+              "new-storage charge must be new_storage_per_byte().saturating_mul(len(value).saturating_sub(old_len)) (growth only); found %s" % flat)
+    cn, cf = F.find(r"^fuel_vm::interpreter::storage::.*::storage_clear_slot_range$", ["fuel_vm"], one=True)
+    rep.saw(cn)
+    dep = [[describe(cf, a, depth=16) for a in args] for i, c, args, *_ in calls(cf) if callee_matches(c, r"::gas::.*::dependent_gas_charge$")]
+    rep.check(len(dep) == 1 and "storage_clear(" in dep[0][1] and dep[0][2] == "arg:range", "TAB-storage-charge", "clear:storage_clear(range)",
+              "%s:%s" % (cf["file"], cf["line"]), "storage_clear_slot_range must charge storage_clear() on the number of slots; found %s" % dep)
+    rn, rf = F.find(r"^fuel_vm::interpreter::storage::.*::storage_read_slot$", ["fuel_vm"], one=True)
+    rep.saw(rn)
+    dep = [[describe(rf, a, depth=16) for a in args] for i, c, args, *_ in calls(rf) if callee_matches(c, r"::gas::.*::dependent_gas_charge$")]
+    hot = [d for d in dep if "storage_read_hot(" in d[1]]
+    cold = [d for d in dep if "storage_read_cold(" in d[1]]
+    rep.check(len(hot) == 1 and len(cold) == 1 and "unwrap_or(call:map(" in hot[0][2] and "unwrap_or(call:map(" in cold[0][2], "TAB-storage-charge",
+              "read:hot-on-hit,cold-on-miss", "%s:%s" % (rf["file"], rf["line"]), "storage_read_slot must charge hot/cold on the value length; found %s" % dep)
+    # hot charge only on the cache-hit path, cold only on the miss path
+    cfg = CFG(rf)
+    getb = call_blocks(rf, r"BTreeMap.*::get$|HashMap.*::get$")
+    rdb = call_blocks(rf, r"StorageRead.*::read_alloc$")
+    hb = [i for i, c, args, *_ in calls(rf) if callee_matches(c, r"GasCostsValues::storage_read_hot$")]
+    cb = [i for i, c, args, *_ in calls(rf) if callee_matches(c, r"GasCostsValues::storage_read_cold$")]
+    rep.check(bool(rdb and hb and cb) and all(cfg.dominates(rdb[0], b) for b in cb) and not any(b in cfg.reachable_from(rdb[0]) for b in hb),
+              "TAB-storage-charge", "read:cold-after-backing-read", "%s:%s" % (rf["file"], rf["line"]),
+              "cold charge must follow the backing-store read; hot charge must be on the cache-hit path only")
+
     # ---------------- CALL gas
     pn, pf = F.find(r"^fuel_vm::interpreter::flow::PrepareCallCtx::<'_, S, V>::prepare_call$", ["fuel_vm"], one=True)
     rep.saw(pn)
